@@ -175,13 +175,32 @@ let observe (st : state) : string =
   String.concat ";" eph ^ "|fds=" ^ string_of_int (opened - closed) ^ "|closes=" ^ string_of_int (List.length st.oslog) ^ ":" ^ string_of_int closed
   ^ "|own=" ^ String.concat "," own
 
+(* round 4: a leading A on K / C / E = the allocation inside the operation triggers an automatic collection (no observation).
+   Request ahist runs the history on AutoGc.run_sched's step with the pinned gate protocol (flag carried beside the state);
+   request hist treats it as a silent collection in front of the operation (AutoGc.expand). *)
+let strip_auto raw =
+  match String.split_on_char ',' raw with
+  | ("AK" | "AC" | "AE") :: _ -> (true, String.sub raw 1 (String.length raw - 1))
+  | _ -> (false, raw)
+let sched_mode = ref false
+let gate_flag = ref false
+let step_with auto o st =
+  if !sched_mode then
+    (match step_sched pinned_policy (auto, o) (!gate_flag, st) with
+     | None -> None
+     | Some (fl, s) -> gate_flag := fl; Some s)
+  else if auto then (match step OGc st with None -> None | Some s -> step o s)
+  else step o st
+
 let hist nslots fuel ops =
+  let ops = List.map (fun (raw, os) -> let (a, r) = strip_auto raw in ((a, r), os)) ops in
+  gate_flag := false;
   let st = ref (init (nat_of_int nslots) (nat_of_int_tr fuel)) in
   Hashtbl.reset imm_of_slot; Hashtbl.reset eph_imm;
   let out = ref [] in
   let bad = ref None in
   (try
-     List.iteri (fun k (raw, os) ->
+     List.iteri (fun k ((auto, raw), os) ->
          (match String.split_on_char ',' raw with
           | ["Z"; i; j] ->
             let sl x = let x = int_of_string x in
@@ -193,7 +212,7 @@ let hist nslots fuel ops =
             Hashtbl.replace eph_imm (hex_of_addr !st.next) (code kk, code vv)      (* the ephemeron gets the next fresh address *)
           | _ -> ());
          List.iter (fun o ->
-             match step o !st with
+             match step_with auto o !st with
              | None -> (match o with OGc -> out := "ERRFUEL" :: !out | _ -> bad := Some k); raise Exit
              | Some s -> st := s; (match o with OGc -> out := observe s :: !out | _ -> ())) os;
          forget_overwritten !st raw;
@@ -316,7 +335,13 @@ let handle = function
     let f = nat_of_int_tr (int_of_string fuel) in
     answer (gc_after_mark f f (heap_of hp) (mset_of marked) [])
   | ["hist"; nslots; fuel; ops] ->
-    hist (int_of_string nslots) (int_of_string fuel) (List.map (fun r -> (r, op_of r)) (String.split_on_char ';' ops))
+    sched_mode := false;
+    hist (int_of_string nslots) (int_of_string fuel) (List.map (fun r -> (r, op_of (snd (strip_auto r)))) (String.split_on_char ';' ops))
+  | ["ahist"; nslots; fuel; ops] ->
+    sched_mode := true;
+    let r = hist (int_of_string nslots) (int_of_string fuel) (List.map (fun r -> (r, op_of (snd (strip_auto r)))) (String.split_on_char ';' ops)) in
+    sched_mode := false;
+    r
   | ["nhist"; nslots; fuel; ops] ->
     nhist (int_of_string nslots) (int_of_string fuel) (List.map (fun r -> (r, nop_of r)) (String.split_on_char ';' ops))
   | f -> "ERR unknown request " ^ (match f with x :: _ -> x | [] -> "")
